@@ -149,3 +149,49 @@ def chunks(seq, n):
     seq = list(seq)
     for i in range(0, len(seq), n):
         yield seq[i:i + n]
+
+
+# ---------------------------------------------------------------------------------------------------
+# depth-first enumeration of every enabled row sequence (no merging)
+
+def struct_menu(m, n, seed, cap, content='db', pairs=False, multi=False, terms=True):
+    """default menu: palette content rows + every split / join / single termination enabled in state m"""
+    rows = [(k, content_row(m, k, n, seed)) for k in content]
+    rows += split_rows(m, cap, pairs) + join_rows(m, multi)
+    if terms:
+        rows += term_rows(m)
+    return rows
+
+
+def walk(headers, depth, seed, cap, menu, visit, prefix=(), pre=()):
+    """visit(hist) for every enabled sequence extending prefix by at most `depth` rows (prefix itself included)"""
+    def rec(hist, d):
+        visit(hist)
+        if d == 0:
+            return
+        m = build(headers, hist, pre, close=False)
+        if m.width() == 0:
+            return
+        n = len(hist)
+        for _, row in menu(m, n, seed, cap):
+            rec(hist + [row], d - 1)
+    rec(list(prefix), depth)
+
+
+def walk_jobs(headers, depth, seed, cap, menu, split_at=2, pre=()):
+    """prefixes of length split_at (and shorter terminal ones) so that the walk can be distributed: [(prefix, remaining_depth, visit_prefix_itself)]"""
+    jobs = []
+    shorter = []
+
+    def rec(hist, d):
+        if len(hist) == split_at or d == 0:
+            jobs.append((list(hist), d))
+            return
+        shorter.append(list(hist))
+        m = build(headers, hist, pre, close=False)
+        if m.width() == 0:
+            return
+        for _, row in menu(m, len(hist), seed, cap):
+            rec(hist + [row], d - 1)
+    rec([], depth)
+    return shorter, jobs
